@@ -106,7 +106,7 @@ def run_case(item):
         _, cfg, depth, keys = item
         st = Stats()
         last = None
-        for ev, obs, run in B.adaptive_programs(aiu, cfg, {}, depth, keys):
+        for ev, obs, run in B.adaptive_programs(aiu, cfg, {}, depth, keys, max_branch=16 if depth <= 4 else 8):
             last = ev
             st.executions += 1
             st.transitions += len(ev) + len(obs.batches)
